@@ -804,6 +804,7 @@ func c19HistoryX(o *hx.Out, r *hx.Rng, in c19HistIn, nq int, tags []string, extr
 	defer s.Close()
 	var ups []hx.Sx
 	var ids []string
+	var ok []bool
 	nok := 0
 	for _, u := range in.Uploads {
 		id, err := s.upload(u)
@@ -822,6 +823,7 @@ func c19HistoryX(o *hx.Out, r *hx.Rng, in c19HistIn, nq int, tags []string, extr
 		} else {
 			o.Count("hist.upload-refused")
 		}
+		ok = append(ok, id != "")
 		ups = append(ups, hx.L(hx.S(id), hx.S(tm), hx.S(u.User), hx.List(fsx), hx.Bool(id != "")))
 	}
 	all, err := s.dbQuery("")
@@ -880,17 +882,44 @@ func c19HistoryX(o *hx.Out, r *hx.Rng, in c19HistIn, nq int, tags []string, extr
 			o.Count("hist.query-some")
 		}
 	}
-	c := hx.L(hx.I(2), hx.List(ups), func() hx.Sx {
+	allSx := func() hx.Sx {
 		it := make([]hx.Sx, len(all))
 		for i, x := range all {
 			it[i] = hx.L(c19Labels(x.Labels), c19Labels(x.NameLabels), hx.I(0), hx.S(x.Content))
 		}
 		return hx.List(it)
-	}(), hx.List(qsx))
+	}()
+	c := hx.L(hx.I(2), hx.List(ups), allSx, hx.List(qsx))
 	o.Count("hist")
 	o.Count(fmt.Sprintf("hist.uploads-ok=%d", nok))
+	// an accepted upload in which a forced flush falls on the first result of a
+	// run that has a follower (c19runs.go): the recorded finding's input class
+	splits := 0
+	for i, u := range in.Uploads {
+		if ok[i] {
+			splits += c19SplitSim(u).splits
+		}
+	}
+	if splits > 0 {
+		tags = append(append([]string{}, tags...), c19SplitTag)
+		o.Count("hist.record-split-at-flush")
+	}
 	key := fmt.Sprintf("h%d", o.Len())
 	o.Add(c, in, key, len(all) > 0, tags...)
+	if splits > 0 {
+		// the same observations once more as kind 3 WITHOUT the tag: judged by the
+		// rule amended by exactly the recorded deviation, so that anything else
+		// going wrong on this input is still reported
+		c3 := hx.L(hx.I(3), hx.List(ups), allSx, hx.List(qsx))
+		var rest []string
+		for _, t := range tags {
+			if t != c19SplitTag {
+				rest = append(rest, t)
+			}
+		}
+		o.Count("hist.record-split-at-flush.amended-copy")
+		o.Add(c3, in, key, len(all) > 0, rest...)
+	}
 	return nil
 }
 
@@ -954,7 +983,28 @@ func genC19Fixed(o *hx.Out, r *hx.Rng) error {
 		return err
 	}
 	// finding: a value / line ending in CR loses it on the way back
-	return one("k: v\r\r\nBenchmarkX 1 ns/op\r\r\n", []string{"k>a", "name:X"}, "C19_trailing_cr")
+	if err := one("k: v\r\r\nBenchmarkX 1 ns/op\r\r\n", []string{"k>a", "name:X"}, "C19_trailing_cr"); err != nil {
+		return err
+	}
+	// finding: 41 distinct six-label records, then one benchmark run twice: the
+	// flush forced by the 990-argument limit falls on the first of the two, which
+	// are stored as two records (the input tag is set by c19HistoryX's simulation).
+	// Control: 40 distinct records, then the pair.
+	for _, k := range []int{41, 40} {
+		var sb strings.Builder
+		for i := 0; i < k; i++ {
+			fmt.Fprintf(&sb, "BenchmarkR%d 1 2 ns/op\n", i)
+		}
+		sb.WriteString("BenchmarkRun 1 2 ns/op\nBenchmarkRun 1 3 ns/op\n")
+		in := c19HistIn{Kind: "history", Uploads: []c19Upload{{User: "user", Files: []c19File{{"a.txt", sb.String()}}}}}
+		for _, q := range []string{"", "name:Run", "upload>1", "name:R7", "by:user name>Ru"} {
+			in.Queries = append(in.Queries, c19Query{q, 0})
+		}
+		if err := c19History(o, r, in, 0, nil); err != nil {
+			return err
+		}
+	}
+	return nil
 }
 
 // ---------- histories of many uploads on one day: listings with query and limit ----------
@@ -1202,7 +1252,7 @@ func genC19Uni(o *hx.Out, r *hx.Rng, tier string) error {
 
 func genC19(o *hx.Out, r *hx.Rng, tier string, replay string) error {
 	log.SetOutput(io.Discard)
-	o.Rule = "three streams: (words) texts over {a b space tab quote backslash | v s : é < k}, exhaustive up to a length bound over 5 symbols, through SplitWords / addToQuery / parseQueryString; (fmt) generated benchmark files (label set/delete, blank, hostile lines, CRLF) through the legacy Reader (with and without AddLabels), the Printer and the Reader again; (history) 1-6 uploads of 1-3 files through storage.Client into an in-process storage/app server on in-memory sqlite, then 20-60 generated queries (equality/range, present/absent keys, several terms per key, contradictory, redundant, quoted values, malformed words, key upload) each through db.DB.Query, storage.Client.Query, db.DB.ListUploads and storage.Client.ListUploads with a limit; (words, non-ASCII) texts and front-end values with à Å 全 U+00A0 U+2003 U+0085 (UTF-8 bytes 0x85 / 0xA0), exhaustive to length 3 over {a space à Å U+00A0}; (many) 11-14 tiny uploads on one day, listings with limits 1/3/5 and others, with and without queries most uploads match; (transitions) files built from label-set transitions (superset, subset, same size other keys, disjoint, value change) read back per upload in one HTTP response, and through Reader/Printer/Reader; (non-ASCII values) stored label values with those symbols searched by the bare word the front end builds; (flush boundary) uploads of distinct records whose LAST record is the one the database layer's 990-argument (248-label) flush falls into, or falls in front of, or a neighbour of it (first/second/third flush; 4-9 labels per record: with/without user, file name, file labels, gomaxprocs and sub-name labels; one or two files; with the plain six labels that is 42 records; 42, 41, 43 and 83 six-label records are always generated), and uploads whose last record alone has more than 247 (or ~500) labels; every label of that final record is searched as key:value alone, with name:, and with upload:ID through Query and ListUploads. non-trivial = at least one word / result / stored result"
+	o.Rule = "three streams: (words) texts over {a b space tab quote backslash | v s : é < k}, exhaustive up to a length bound over 5 symbols, through SplitWords / addToQuery / parseQueryString; (fmt) generated benchmark files (label set/delete, blank, hostile lines, CRLF) through the legacy Reader (with and without AddLabels), the Printer and the Reader again; (history) 1-6 uploads of 1-3 files through storage.Client into an in-process storage/app server on in-memory sqlite, then 20-60 generated queries (equality/range, present/absent keys, several terms per key, contradictory, redundant, quoted values, malformed words, key upload) each through db.DB.Query, storage.Client.Query, db.DB.ListUploads and storage.Client.ListUploads with a limit; (words, non-ASCII) texts and front-end values with à Å 全 U+00A0 U+2003 U+0085 (UTF-8 bytes 0x85 / 0xA0), exhaustive to length 3 over {a space à Å U+00A0}; (many) 11-14 tiny uploads on one day, listings with limits 1/3/5 and others, with and without queries most uploads match; (transitions) files built from label-set transitions (superset, subset, same size other keys, disjoint, value change) read back per upload in one HTTP response, and through Reader/Printer/Reader; (non-ASCII values) stored label values with those symbols searched by the bare word the front end builds; (flush boundary) uploads of distinct records whose LAST record is the one the database layer's 990-argument (248-label) flush falls into, or falls in front of, or a neighbour of it (first/second/third flush; 4-9 labels per record: with/without user, file name, file labels, gomaxprocs and sub-name labels; one or two files; with the plain six labels that is 42 records; 42, 41, 43 and 83 six-label records are always generated), and uploads whose last record alone has more than 247 (or ~500) labels; every label of that final record is searched as key:value alone, with name:, and with upload:ID through Query and ListUploads; (runs at the flush boundary) the same kind of uploads in which the record the flush falls on is the FIRST of a run of 2-4 results with identical labels (different values), or the run starts one record later / one record earlier (controls), 0-3 distinct records (and sometimes a second run) after it, and runs behind a first result that alone has more than 247 labels; always: 41 distinct six-label records then one benchmark twice, and 40 then the pair; every accepted upload of every history stream is replayed through a simulation of InsertRecord's coalescing and insertLabel's counter, and an input in which a forced flush falls on the first result of a run that has a follower is tagged C19_record_split_at_flush and evaluated a second time, untagged, as kind 3 (rule amended by exactly that deviation). non-trivial = at least one word / result / stored result"
 	genC19Words(o, r.Split(), tier)
 	if err := genC19Fmt(o, r.Split(), tier); err != nil {
 		return err
@@ -1223,5 +1273,8 @@ func genC19(o *hx.Out, r *hx.Rng, tier string, replay string) error {
 		return err
 	}
 	// last: a new stream takes its generator from a new split, so the earlier streams keep their inputs
-	return genC19Boundary(o, r.Split(), tier)
+	if err := genC19Boundary(o, r.Split(), tier); err != nil {
+		return err
+	}
+	return genC19Runs(o, r.Split(), tier)
 }
